@@ -172,6 +172,7 @@ struct Rec {
   enum { Never, Ok, Invalid, Unknown };
   int status = Never;
   std::set<std::string> produced;   // inputs that had a producing statement when this was recorded
+  std::map<std::string, std::string> seenCmd;   // producer's command line behind each produced input, as last seen
   std::string cmdline;
   std::map<std::string, FileState> ins, outs;
   std::vector<std::string> discovered;
@@ -447,6 +448,8 @@ struct Run {
             upFail = or3(upFail, pFail[p->name]);
             upChanged = or3(upChanged, pathChanged.count(i) ? pathChanged[i] : pChanged[p->name]);
             upValue = or3(upValue, pathValue.count(i) ? pathValue[i] : pValue[p->name]);
+            // built in an invocation that did not reach this statement: its stored result may differ from the one seen here
+            if (r && recs.count(p->name) && r->seenCmd.count(i) && r->seenCmd[i] != recs[p->name].cmdline) upValue = or3(upValue, M);
           }
           if (r && status != Rec::Never && r->produced.count(i) != (p ? 1u : 0u)) producerSetChanged = true;
         }
@@ -484,7 +487,10 @@ struct Run {
       else own = stateChanged ? Y : producerSetChanged ? M : N;
       // a command with a depfile runs whenever its task does; any other one is brought up to date without running while its outputs
       // are not older than its inputs
-      Tri run = or3(own, s->depfile ? or3(upChanged, upValue) : upChanged);
+      // ... and whether a changed stored result alone (new command hash upstream, files left alone by restat) re-runs such a
+      // command is llbuild's business: one extra run that the statement neither demands nor forbids - not judged
+      Tri run = or3(own, upChanged);
+      if (s->depfile && run == N && upValue != N) run = M;
       if (s->generator && status != Rec::Ok && own == N && upChanged == M) run = M;
       pOwn[s->name] = own;
       Tri fail = N, changed = N, value = N;
@@ -653,7 +659,10 @@ struct Run {
         for (auto* lst : {&s->explicitIns, &s->implicitIns})
           for (auto& i : *lst) {
             r.ins[i] = stateOf(i);
-            if (man.producer(i)) r.produced.insert(i);
+            if (const Stmt* ip = man.producer(i)) {
+              r.produced.insert(i);
+              if (!ip->phony && recs.count(ip->name)) r.seenCmd[i] = recs[ip->name].cmdline;
+            }
           }
         for (auto& o : s->outs) r.outs[o] = stateOf(o);
         if (s->depfile) {
